@@ -159,3 +159,32 @@ MANIFEST_TEXT["C18"] = {
     "level_note": "Trusted: catalogue accessor hook and the filename wrappers (the code's own naming functions).",
     "technique": "runtime invariant monitor at quiescent points (file-set equality, conservation over the fs-effect log)",
 }
+
+META["C14"] = {
+    "level": "fault_enumeration",
+    "rule": "(1) Round trips: partition files with 6 columns each drawn from every value class x null pattern x length {1,8,9,65,300,1500} (built with the engine's own ColumnBuffer through the hook): PartitionSegment::serialize -> VersionedChecksummedBlobWriter::store -> load -> deserialize must give identical name, len, range, codec ops, section kinds and section contents, and the stand-alone decoder must return the supplied cells; catalogues with 0-4 tables (hostile names), 1-4 partitions, 1-4 sub-partitions and cursors up to u64::MAX-1 through MetaStore serialize/deserialize; WAL segments for every ColumnData variant. (2) Fault enumeration on files written by a real database (one WAL segment, one partition file, the catalogue): EVERY single-bit flip, EVERY truncation length, suffixes of 1/8/4096 bytes and the empty file must be rejected by load() (never Ok with a different payload). (3) End to end for a sample of faults per file kind (bit flip, truncation, suffix, a valid file of another kind): a child process opens the directory; outcome must be rejection (open fails / blocks after a recorded panic / query error) or content identical to the uncorrupted database. One evaluation = one load/open judged. Distinct non-trivial = distinct codec signature x section layout round-tripped, catalogue shapes, WAL classes, fault classes.",
+    "budget": {"quick": 100, "thorough": 900},
+    "exhaustive": {"quick": True, "thorough": True},
+    "floors": {"quick": {"evaluations": 9000, "distinct": 600, "counters": {"rejected:wal:bitflip:payload": 500, "rejected:partition:bitflip:payload": 500, "rejected:meta:bitflip:payload": 500, "rejected:wal:truncation": 100, "rejected:partition:truncation": 100, "rejected:meta:truncation": 100},
+                         "sets": {"codec_signatures_roundtripped": ["Dict(U8)", "StrUnpack", "StrHexUnpack", "Delta(", "Add(U8)", "ToI64(U16)", "Nullable", "LZ4", "Pco"]}}},
+    "assumptions": COMMON_ASSUMPTIONS + ["Exhaustive over bit positions and truncation lengths of the sampled files (a few hundred bytes each); the thorough tier repeats this over 20 file sets.", "A database open that blocks after rejecting a corrupted WAL segment counts as rejection here (non-termination is out of this property's scope)."],
+}
+MANIFEST_TEXT["C14"] = {
+    "level_text": "Fault enumeration on the real storage code: every single-bit flip and every truncation length of real WAL / partition / catalogue files must be rejected by the checksummed loader, sampled faults are replayed end to end through LocustDB::new in a child process, and thousands of generated columns / catalogues / WAL segments must read back structurally and value-wise identical.",
+    "design_ref": "DESIGN.md section 3, C14",
+    "level_note": "Exhaustive for the sampled files; round-trip inputs are seeded samples over the class grid. Trusted: SHA-256 implementation, hook re-exports.",
+    "technique": "exhaustive single-fault injection on stored bytes + round-trip monitors through the engine's own encoders/decoders",
+}
+META["C16"] = {
+    "level": "exploration",
+    "rule": "Round-trip oracles on the pure encode/decode functions: (a) ingestion messages for every value class x null pattern x length {0,1,2,7,8,9,64,65,200} carried as dense / sparse / i64 / sparse-i64 / string / mixed / empty columns: a message written against the capnp schema with an explicit row count must decode to the same tables, row counts, column kinds and cells; decode(encode(x)) must equal x; buffers built with the struct API and the row API (dense->sparse, int->float promotion) must serialise to the cells supplied. (b) MultiQueryResponse round trip of Int columns: empty, length 1/2/3, constant, arithmetic up/down, deltas and double deltas exactly at and one beyond the i8/i16/i32 bounds, sequences whose differences overflow i64 ([MIN,MAX], [MAX,MIN,MAX], [MIN,0,MAX]), random walks of six magnitudes; Float (NaN payloads, -0.0, inf), String (unicode), Mixed, Null, Xor. (c) xor_float::double: 14 sequences (repeats, sign flips, alternating magnitudes, specials, NaN payloads, subnormals, low-bit-only and high-bit-only changes, four value classes) x regret {0,1,100}: bit-exact without mantissa, and for EVERY mantissa 0..=52 sign, exponent and the leading m mantissa bits of every value preserved. One evaluation = one round trip judged.",
+    "budget": {"quick": 60, "thorough": 600},
+    "floors": {"quick": {"evaluations": 30000, "distinct": 5000}},
+    "assumptions": COMMON_ASSUMPTIONS,
+}
+MANIFEST_TEXT["C16"] = {
+    "level_text": "Round-trip monitors over the real wire codecs with boundary-directed inputs (delta widths at the i8/i16/i32 limits, differences overflowing i64, every mantissa setting 0..52, every ColumnData variant built three different ways); any panic in the codec is reported with its site.",
+    "design_ref": "DESIGN.md section 3, C16",
+    "level_note": "Pure functions, so millions of evaluations are cheap; inputs are boundary grids plus seeded samples.",
+    "technique": "runtime round-trip (decode o encode = id) monitors with boundary-value generators",
+}
